@@ -111,7 +111,12 @@ func (s *Script) Compile() (*Compiled, error) {
 	}
 
 	// reduce globals size
-	globals = globals[:symbolTable.MaxSymbols()+1]
+	numGlobals := symbolTable.MaxSymbols() + 1
+	if numGlobals > GlobalsSize {
+		return nil, fmt.Errorf("too many global variables: %d (limit %d)",
+			symbolTable.MaxSymbols(), GlobalsSize-1)
+	}
+	globals = globals[:numGlobals]
 
 	// global symbol names to indexes
 	globalIndexes := make(map[string]int, len(globals))
@@ -180,6 +185,11 @@ func (s *Script) prepCompile() (
 		symbolTable.DefineBuiltin(idx, fn.Name)
 	}
 
+	if len(names) >= GlobalsSize {
+		err = fmt.Errorf("too many variables: %d (limit %d)",
+			len(names), GlobalsSize-1)
+		return
+	}
 	globals = make([]Object, GlobalsSize)
 
 	for idx, name := range names {
